@@ -125,6 +125,7 @@ func (t *T) Count(key string) {
 
 // Do runs one case; nontrivial says whether it counts as non-trivial under the unit's rule.
 func (t *T) Do(in In, nontrivial bool) {
+	t.journal(in)
 	fs := t.safeCheck(in)
 	t.mu.Lock()
 	t.Evals++
@@ -143,6 +144,22 @@ func (t *T) Do(in In, nontrivial bool) {
 	for _, f := range fs {
 		t.record(f, in)
 	}
+}
+
+// journal: the case about to run, kept in <out>.cur.  A crash of the code under test outside the calling
+// goroutine (a finalizer, a worker) takes the process down; the driver then finds the input here.
+var journalMu sync.Mutex
+var journalFile *os.File
+
+func (t *T) journal(in In) {
+	if journalFile == nil {
+		return
+	}
+	journalMu.Lock()
+	defer journalMu.Unlock()
+	b, _ := json.Marshal(map[string]interface{}{"finding": Finding{Kind: "oracle", Unit: t.U.Name, Class: "implementation-crashes-the-process", Input: in, Pretty: in.Pretty()}})
+	journalFile.Truncate(0)
+	journalFile.WriteAt(b, 0)
 }
 
 // safeCheck converts a panic of the code under test into an oracle finding.
@@ -389,6 +406,10 @@ func main() {
 		os.Exit(2)
 	}
 
+	if *out != "" {
+		journalFile, _ = os.Create(*out + ".cur")
+		defer os.Remove(*out + ".cur")
+	}
 	ran := 0
 	for _, u := range units {
 		ok := false
